@@ -271,6 +271,15 @@ let handle (line : string) : string =
            (match !tt with
             | LoadError _ -> "not-loaded"
             | Loaded t -> hexout (trie_file (kd = "A") (z_of_hex cfg) (z_of_hex pm) (nat_of_int !order) t pz words (iv = "1")))
+       | "R", [pm; iv; vb; cs] ->
+           (match !tr with
+            | LoadError _ -> "not-loaded"
+            | Loaded t ->
+                let counts = List.map (fun x -> z_of_int (int_of_string x)) (String.split_on_char ',' cs) in
+                let unset = if !saw_unk then [] else (match !unigrams with g :: _ -> [g.g_key] | [] -> []) in
+                (match rest_file (z_of_hex pm) (nat_of_int !order) t counts (nat_of_int (int_of_string vb)) !buckets unset words (iv = "1") with
+                 | None -> "table-full"
+                 | Some b -> hexout b))
        | "P", [pm; iv; vb; cs] ->
            (match !tp with
             | LoadError _ -> "not-loaded"
